@@ -81,6 +81,8 @@ type outcome struct {
 	key, msg string
 	slowNode int
 	slowMs   int64
+	lostNode int    // a probe was handled and answered by the restarted server but failed at the caller
+	lostErr  string
 	classes  []string
 	nontriv  bool
 	incon    string
@@ -89,7 +91,7 @@ type outcome struct {
 
 func once(c Case) outcome {
 	var o outcome
-	o.slowNode = -1
+	o.slowNode, o.lostNode = -1, -1
 	cl := scen.NewCluster(c.N, 0)
 	defer cl.Shutdown()
 	down := map[int]bool{}
@@ -182,7 +184,11 @@ func once(c Case) outcome {
 			if handled {
 				reached = true
 				if call.Err != nil {
-					// handled but the caller got an error: the reply was lost (stream reset in between); try again
+					// handled and answered, but the caller got an error: the reply was lost. Nothing else is
+					// in flight during the probes, so a lost reply is only excused if it does not repeat.
+					if o.lostNode < 0 && restarted[s] && strings.Contains(call.Err.Error(), "stream is down") {
+						o.lostNode, o.lostErr = s, call.Err.Error()
+					}
 					continue
 				}
 				// measure reply latency: handler exit -> return, through wall-clock stamps kept by the call
@@ -255,6 +261,14 @@ func run(c Case) vt.Verdict {
 	}
 	if o.key != "" {
 		return vt.Verdict{OK: false, Key: o.key, Msg: o.msg, History: o.events, Classes: o.classes}
+	}
+	if o.lostNode >= 0 {
+		o2 := once(c)
+		if o2.lostNode >= 0 {
+			return vt.Verdict{OK: false, Key: "C10/reply-lost-after-restart", History: o.events, Classes: o.classes,
+				Msg: fmt.Sprintf("after server %d was restarted it handled the first request that reached it and sent its reply, but the call failed with %q (second run: server %d, %q)", o.lostNode, o.lostErr, o2.lostNode, o2.lostErr)}
+		}
+		o.classes = append(o.classes, "lost-reply-not-reproduced")
 	}
 	if o.slowNode >= 0 {
 		// wall-clock evidence is confirmed by a second, independent run of the same case
